@@ -77,7 +77,7 @@ FIELD = [
 ]
 
 UNIT = Unit(
-    name='opt_go', props=['C04', 'C07'], pre_verus=O.PRE_VERUS, spec_files=['std_slices.rs', 'typexpr.rs', 'txt.rs', 'optmark.rs'], prelude=PRELUDE,
+    name='opt_go', props=['C04', 'C07'], pre_verus=O.PRE_VERUS, spec_files=['std_slices.rs', 'seqjoin.rs', 'typexpr.rs', 'txt.rs', 'optmark.rs'], prelude=PRELUDE,
     items=O.base_items('Go', SRC) + [
         Item('write_field', SRC, ['impl Go {', 'fn write_field'], FIELD, wrap=('impl Go {\n', '\n}\n'),
              auto=('fmt', 'strlit', 'then_some', 'map_err_q')),
